@@ -187,7 +187,12 @@ def _fold_expr(body: List[ast.stmt]) -> Optional[ast.expr]:
         if isinstance(st, ast.If) and not st.orelse and len(st.body) == 1 and isinstance(st.body[0], ast.Return) and st.body[0].value is not None:
             a = copy.deepcopy(st.body[0].value)
             c = copy.deepcopy(st.test)
-            if isinstance(a, ast.Constant) and a.value is False:
+            boolish = isinstance(c, (ast.Compare,)) or (isinstance(c, ast.UnaryOp) and isinstance(c.op, ast.Not))
+            if isinstance(a, ast.Constant) and a.value is True and isinstance(e, ast.Constant) and e.value is False:
+                e = c if boolish else ast.Call(func=ast.Name(id='bool', ctx=ast.Load()), args=[c], keywords=[])
+            elif isinstance(a, ast.Constant) and a.value is False and isinstance(e, ast.Constant) and e.value is True:
+                e = ast.UnaryOp(op=ast.Not(), operand=c)
+            elif isinstance(a, ast.Constant) and a.value is False:
                 e = ast.BoolOp(op=ast.And(), values=[ast.UnaryOp(op=ast.Not(), operand=c), e])
             elif isinstance(a, ast.Constant) and a.value is True:
                 e = ast.BoolOp(op=ast.Or(), values=[c, e])
